@@ -15,6 +15,9 @@ def run(rep):
     fw.standin(rep, 's_dbx.py', ['run', rep.seed, 500 if q else 6000],
                'systematic small-scope database histories: repeated-variable and all-unbound patterns, non-ground facts, retract resumed after other operations',
                'e/2 over {a,b}: 5 databases x 7 patterns x 26 inner operations + random histories')
+    fw.standin(rep, 's_share.py', ['run', rep.seed, 405],
+               'two simultaneously suspended uses of one non-ground fact (all interleavings) vs each use alone; compiled conjunction',
+               '9 fact shapes x 9 constant choices x 5 schedules: exhaustive for this family')
     rep.notes.append('assert_fact stores fresh_copy(values) = rename(resolve(values)); Answer.match unifies with a fresh copy per use; '
                      'L-RN-FRESH: every variable of a fresh copy is new (id >= allocation counter), so a stored fact shares no cell '
                      'with the caller and two uses share none with each other')
